@@ -267,7 +267,7 @@ def run_job(job, io):
                     outcome = 'na'
             elif kind == 'mutate_handout':
                 e = pick()
-                which = tape.choice(('paths', 'accessors', 'entries', 'children', 'leaves', 'flatten_leaves', 'entries_elems', 'paths_elems'), 'which')
+                which = tape.choice(('paths', 'accessors', 'entries', 'children', 'leaves', 'flatten_leaves', 'entries_elems', 'paths_elems', 'unflatten_result', 'unflatten_result'), 'which')
                 detail = which
                 site = 'mutate_handout:' + which
                 io.progress({'site': site, 'tape': tape.values})
@@ -282,6 +282,14 @@ def run_job(job, io):
                     a.append('junk')
                     a.reverse()
                     a.clear()
+                elif which == 'unflatten_result':
+                    # the tree a treespec rebuilds belongs to the caller: changing it must not reach back into the treespec
+                    back = sp.unflatten([U.Leaf(40000 + i) for i in range(sp.num_leaves)])
+                    for cont in [x for x in walk(back) if py_children(x) is not None and not isinstance(x, tuple)]:
+                        mutate_container(cont, tape.choice(('append', 'pop', 'clear', 'reorder', 'replace', 'rotate'), 'ur-how'), ctx)
+                        if isinstance(cont, U.Node) and isinstance(cont.aux, list):
+                            cont.aux.append('junk')
+                    back = cont = None
                 elif which == 'entries_elems':
                     # entries may be mutable objects only if the user made them so; lists returned per node must be copies
                     for i in range(sp.num_children):
